@@ -531,3 +531,141 @@ Proof.
     + left. reflexivity.
     + apply Hl. reflexivity.
 Qed.
+
+(** * 4. Statements about [retry] *)
+
+Lemma firstn_seq' n a len : (n <= len)%nat -> firstn n (seq a len) = seq a n.
+Proof.
+  revert a len. induction n as [|n IH]; intros a len H; [reflexivity|].
+  destruct len; [lia|]. cbn. f_equal. apply IH. lia.
+Qed.
+
+Lemma firstn_map' {A B} (f : A -> B) n l : firstn n (map f l) = map f (firstn n l).
+Proof. revert l. induction n; intros [|x l]; cbn; try reflexivity. f_equal. apply IHn. Qed.
+
+Definition failed_retries (h : nat -> outcome) (tr : list event) : nat := (failed_calls h tr - 1)%nat.
+
+(** OnRetryHook is called with 1,2,..,f in order, f = number of failed re-invocations, and the
+    delay it is given is the wait NextBackOff returned for that retry; the Logger likewise *)
+Lemma retry_hook_sequence c h e :
+  let r := retry c h e in
+  let f := failed_retries h (r_trace r) in
+  map w_k (r_waits r) = seq 1 (length (r_waits r))
+  /\ (f <= length (r_waits r))%nat
+  /\ hooks (r_trace r) = (if has_hook c then map note_of (firstn f (r_waits r)) else [])
+  /\ logs (r_trace r) = (if has_log c then map (fun it => (note_of it, max_retries c)) (firstn f (r_waits r)) else [])
+  /\ (has_hook c = true -> map fst (hooks (r_trace r)) = map Z.of_nat (seq 1 f)).
+Proof.
+  cbn zeta. unfold retry, failed_retries. destruct (is_ok (h O)) eqn:H0.
+  - unfold failed_calls. cbn. rewrite H0. cbn. destruct (has_hook c), (has_log c); repeat split; try reflexivity; lia.
+  - pose proof (loop_notes c h (e_sel e) (iterations c) 1 (initial c) (t_reset e) (h O)) as L.
+    cbn zeta in L. destruct L as [Hn [_ [f [Hf [Hfl [Hh Hg]]]]]].
+    set (r := loop c h (e_sel e) (iterations c) 1 (initial c) (t_reset e) (h O)) in *.
+    cbn [r_trace r_waits].
+    assert (E : (failed_calls h (ECall 0 (e_t0 e) (t_end0 e) :: r_trace r) - 1)%nat = f).
+    { unfold failed_calls in *. cbn [calls flat_map app]. fold (calls (r_trace r)).
+      cbn [filter]. rewrite H0. cbn [negb length]. lia. }
+    rewrite E. split; [exact Hn|]. split; [exact Hfl|].
+    cbn [hooks logs flat_map app]. fold (hooks (r_trace r)). fold (logs (r_trace r)).
+    split; [exact Hh|]. split; [exact Hg|].
+    intros HH. rewrite Hh, HH. unfold note_of. rewrite map_map. cbn [fst].
+    rewrite <- (map_map w_k Z.of_nat), <- firstn_map', Hn, firstn_seq' by exact Hfl. reflexivity.
+Qed.
+
+(** every iteration under a valid environment: the wait is Stop (only after MaxElapsedTime) or
+    lies in the randomisation interval of the current interval (equal to it without
+    randomisation); the handler is re-invoked no earlier than that wait after the select was
+    entered; a positive wait is only waited out if the context did not end before the timer *)
+Lemma retry_iterations c h e : cfg_ok c -> env_ok c h e = true ->
+  Forall (iter_ok c (t_done c e) (t_reset e)) (r_waits (retry c h e)).
+Proof.
+  intros Hcfg Henv. apply env_ok_spec in Henv as [_ [_ [_ Hl]]]. unfold retry.
+  destruct (is_ok (h O)) eqn:H0; [constructor|]. cbn [r_waits].
+  apply loop_iters_ok; [exact Hcfg|destruct Hcfg; assumption|apply Hl; reflexivity].
+Qed.
+
+Lemma retry_schedule c h e : max_elapsed c = 0 ->
+  Forall (fun it => w_cur it = cur_at c (w_k it)) (r_waits (retry c h e)).
+Proof.
+  intros M. unfold retry. destruct (is_ok (h O)); [constructor|]. cbn [r_waits].
+  apply loop_cur_schedule; [exact M|lia|reflexivity].
+Qed.
+
+Lemma retry_backoff_lower_bound c h e : cfg_ok c -> env_ok c h e = true ->
+  forall it, In it (r_waits (retry c h e)) -> w_ctx it = false ->
+    w_prev it + w_wait it <= w_twake it
+    /\ (w_wait it = STOP \/ delay_lo (rfac c) (w_cur it) <= w_wait it <= delay_hi (rfac c) (w_cur it))
+    /\ (inject_Z (w_cur it) * (1 - rfac c) < inject_Z (delay_lo (rfac c) (w_cur it)) + 1)%Q
+    /\ ((rfac c == 0)%Q -> w_wait it <> STOP -> w_wait it = w_cur it)
+    /\ (max_elapsed c = 0 -> w_wait it <> STOP /\ w_cur it = cur_at c (w_k it)).
+Proof.
+  intros Hcfg Henv it Hin Hctx.
+  pose proof (retry_iterations c h e Hcfg Henv) as F. rewrite Forall_forall in F.
+  destruct (F it Hin) as [T [Hc [Tw [_ [_ Hd]]]]]. specialize (Tw Hctx).
+  destruct Hcfg as [_ [_ [_ [R0 [R1 _]]]]].
+  split; [lia|]. split; [destruct Hd as [[? _]|[? _]]; [left|right]; assumption|].
+  split; [apply delay_lo_spec; assumption|].
+  split; [intros E NS; destruct Hd as [[? _]|[_ [_ [X _]]]]; [contradiction|apply X; exact E]|].
+  intros M. split; [destruct Hd as [[_ [? _]]|[_ [? _]]]; unfold STOP; lia|].
+  pose proof (retry_schedule c h e M) as S. rewrite Forall_forall in S. apply S. exact Hin.
+Qed.
+
+Lemma retry_gives_up_when_ctx_ends c h e : cfg_ok c -> env_ok c h e = true ->
+  forall it t, In it (r_waits (retry c h e)) -> t_done c e = Some t ->
+    w_ctx it = false -> t < w_tnb it + w_wait it -> w_wait it <= 0.
+Proof.
+  intros Hcfg Henv it t Hin Ht Hctx Hlt.
+  pose proof (retry_iterations c h e Hcfg Henv) as F. rewrite Forall_forall in F.
+  destruct (F it Hin) as [_ [_ [_ [Ts _]]]]. specialize (Ts Hctx).
+  destruct (Z.lt_ge_cases 0 (w_wait it)) as [P|P]; [|exact P].
+  specialize (Ts P t Ht). lia.
+Qed.
+
+Lemma retry_max_elapsed_stop c h e : cfg_ok c -> env_ok c h e = true ->
+  forall it, In it (r_waits (retry c h e)) ->
+    0 < max_elapsed c -> max_elapsed c < w_tnb it - t_reset e -> w_wait it = STOP.
+Proof.
+  intros Hcfg Henv it Hin M1 M2.
+  pose proof (retry_iterations c h e Hcfg Henv) as F. rewrite Forall_forall in F.
+  destruct (F it Hin) as [_ [_ [_ [_ [_ [[? _]|[_ [_ [_ [?|?]]]]]]]]]]; [assumption|lia|lia].
+Qed.
+
+(** exhausting the retries: without a context exit and with every attempt failing the handler
+    is invoked exactly 1 + iterations times and (nil, last error) is returned *)
+Lemma loop_exhaust c h sl : forall rem k cur now last,
+  (forall j, (k <= j < k + rem)%nat -> is_ok (h j) = false /\ s_ctx (sl j) = false) ->
+  let r := loop c h sl rem k cur now last in
+  calls (r_trace r) = seq k rem
+  /\ r_out r = ([], snd (match rem with O => last | _ => h (k + rem - 1)%nat end)).
+Proof.
+  induction rem as [|rem IH]; intros k cur now last H; cbn zeta; [split; reflexivity|].
+  cbn [loop]. destruct (next_backoff c cur (s_elapsed (sl k)) (s_rnd (sl k))) as [wait cur'].
+  destruct (H k ltac:(lia)) as [Hk Hs]. rewrite Hs, Hk. cbn [r_trace r_out].
+  destruct (IH (S k) cur' (now + s_gap (sl k) + s_wake (sl k) + s_dur (sl k)) (h k)) as [A B].
+  { intros j Hj. apply H. lia. }
+  split.
+  - cbn [calls flat_map app].
+    match goal with |- context [flat_map ?f (notes c k wait ++ ?l)] =>
+      change (flat_map f (notes c k wait ++ l)) with (calls (notes c k wait ++ l)) end.
+    rewrite calls_notes, A. reflexivity.
+  - rewrite B. destruct rem.
+    + replace (k + 1 - 1)%nat with k by lia. reflexivity.
+    + replace (S k + S rem - 1)%nat with (k + S (S rem) - 1)%nat by lia. reflexivity.
+Qed.
+
+Lemma retry_exhaust c h e :
+  (forall j, (j <= iterations c)%nat -> is_ok (h j) = false) ->
+  (forall j, (1 <= j <= iterations c)%nat -> s_ctx (e_sel e j) = false) ->
+  calls (r_trace (retry c h e)) = seq 0 (S (iterations c))
+  /\ r_out (retry c h e) = ([], snd (h (iterations c))).
+Proof.
+  intros Hf Hs. unfold retry. rewrite (Hf O ltac:(lia)). cbn [r_trace r_out].
+  destruct (loop_exhaust c h (e_sel e) (iterations c) 1 (initial c) (t_reset e) (h O)) as [A B].
+  { intros j Hj. split; [apply Hf|apply Hs]; lia. }
+  split.
+  - cbn [calls flat_map app].
+    match goal with |- context [flat_map ?f ?l] => change (flat_map f l) with (calls l) end.
+    rewrite A. reflexivity.
+  - rewrite B. pose proof (iterations_pos c). destruct (iterations c) as [|n]; [lia|].
+    replace (1 + S n - 1)%nat with (S n) by lia. reflexivity.
+Qed.
